@@ -18,6 +18,9 @@ func binade(x float64) int {
 // (Value mode: the executor forks over sign and binade and keeps the significand symbolic.)
 func FloatIn[T Float](name string, lo, hi int) T {
 	v := Any[T](name)
+	if defaulted {
+		return T(math.Ldexp(1, lo))
+	}
 	x := float64(v)
 	if x == 0 || math.IsNaN(x) || math.IsInf(x, 0) || binade(x) < lo || binade(x) > hi {
 		panic(Invalid{"FloatIn " + name})
@@ -28,6 +31,9 @@ func FloatIn[T Float](name string, lo, hi int) T {
 // FloatLike returns another arbitrary value with the sign and binade of f.
 func FloatLike[T Float](f T, name string) T {
 	v := Any[T](name)
+	if defaulted {
+		return f
+	}
 	x, y := float64(f), float64(v)
 	if y == 0 || math.IsNaN(y) || math.IsInf(y, 0) || math.Signbit(x) != math.Signbit(y) || binade(x) != binade(y) {
 		panic(Invalid{"FloatLike " + name})
@@ -52,6 +58,9 @@ func class[T Integer](x T) (neg bool, l int) {
 // IntLike returns another arbitrary value with the sign and bit length of x.
 func IntLike[T Integer](x T, name string) T {
 	v := Any[T](name)
+	if defaulted {
+		return x
+	}
 	n1, l1 := class(x)
 	n2, l2 := class(v)
 	if n1 != n2 || l1 != l2 {
